@@ -79,6 +79,9 @@ def build(module):
         'nprefix_all': Helper(lambda e, s: SBool(z3.And(z3.Extract(seq_t(s, nempty), z3.IntVal(0), z3.Length(seq_t(s, nempty))) == seq_t(s, nempty),
                                                       z3.Extract(seq_t(s, nempty), z3.IntVal(0), z3.IntVal(0)) == nempty))),
         'tok': Helper(lambda e, n: wrap(TOK(n.t))),
+        # the element the current iteration looks at, named by position (not by the loop variable of the code: a renamed local
+        # must not turn the lemma instance into one about another node)
+        'nitem': Helper(lambda e, s, j: SOpaque(seq_t(s, nempty)[kt(j)], NODE)),
         'first': Helper(lambda e: SOpaque(FIRST, NODE)),
         'tail': Helper(lambda e: nwrap(TAIL)),
         'no_items': Helper(lambda e: SBool(z3.Length(ITEMS) == 0)),
@@ -152,7 +155,7 @@ def build(module):
             JT(z3.Concat(seq_t(s, nempty), z3.Unit(c.t))) == z3.Concat(JT(seq_t(s, nempty)), sep, TOK(c.t))))
         uses = {'entry': ['jt_empty()', 'nprefix_all(tail())'],
                 'loop1.entry': ['jt_empty()', 'nprefix_all(_iter1)'],
-                'loop1.preserve': ['jt_snoc(nprefix(_iter1, k - 1), target_node)', 'nprefix_step(_iter1, k - 1)'],
+                'loop1.preserve': ['jt_snoc(nprefix(_iter1, k - 1), nitem(_iter1, k - 1))', 'nprefix_step(_iter1, k - 1)'],
                 'loop1.exit': ['nprefix_all(_iter1)'], 'post': ['nprefix_all(tail())', 'jt_empty()']}
         for n in (0, 2, 3):
             uses.update(copy_uses(n))
@@ -181,7 +184,7 @@ def build(module):
                 TOK(c.t))))
         uses = {'entry': ['ejt_empty()', 'nprefix_all(tail())'],
                 'loop1.entry': ['ejt_empty()', 'nprefix_all(_iter1)'],
-                'loop1.preserve': ['ejt_snoc(nprefix(_iter1, k - 1), next_node)', 'nprefix_step(_iter1, k - 1)'],
+                'loop1.preserve': ['ejt_snoc(nprefix(_iter1, k - 1), nitem(_iter1, k - 1))', 'nprefix_step(_iter1, k - 1)'],
                 'loop1.exit': ['nprefix_all(_iter1)'], 'post': ['nprefix_all(tail())', 'ejt_empty()']}
         for n in (0, 2, 3, 4):
             uses.update(copy_uses(n))
